@@ -34,6 +34,13 @@
 
 #include "matrixsslImpl.h"
 
+#ifdef MATRIXSSL_VERIF
+/* Verification hook (off by default): lets a simulation harness turn this endpoint
+   into a misbehaving peer that omits a handshake message.  Returns non-zero if the
+   message of the given type is to be skipped. */
+extern int psVerifHsSkip(const ssl_t *ssl, int hsType);
+#endif
+
 #ifndef USE_TLS_1_3_ONLY
 
 #ifdef USE_ROT_CRYPTO
@@ -3995,6 +4002,12 @@ static int32 writeNewSessionTicket(ssl_t *ssl, sslBuf_t *out)
 static int32 writeServerKeyExchange(ssl_t *ssl, sslBuf_t *out, uint32 pLen,
     unsigned char *p, uint32 gLen, unsigned char *g)
 {
+#ifdef MATRIXSSL_VERIF
+    if (psVerifHsSkip(ssl, SSL_HS_SERVER_KEY_EXCHANGE))
+    {
+        return MATRIXSSL_SUCCESS;
+    }
+#endif
     unsigned char *c, *end, *encryptStart;
     uint8_t padLen;
     psSize_t messageSize = 0;
@@ -4667,6 +4680,12 @@ static int32 writeCertificateStatus(ssl_t *ssl, sslBuf_t *out)
  */
 static int32 writeCertificate(ssl_t *ssl, sslBuf_t *out, int32 notEmpty)
 {
+#ifdef MATRIXSSL_VERIF
+    if (psVerifHsSkip(ssl, SSL_HS_CERTIFICATE))
+    {
+        return MATRIXSSL_SUCCESS;
+    }
+#endif
 #  if defined(USE_SERVER_SIDE_SSL) || defined(USE_CLIENT_AUTH)
     psX509Cert_t *cert;
     uint32 certLen;
@@ -4819,6 +4838,12 @@ static int32 writeCertificate(ssl_t *ssl, sslBuf_t *out, int32 notEmpty)
  */
 static int32_t writeChangeCipherSpec(ssl_t *ssl, sslBuf_t *out)
 {
+#ifdef MATRIXSSL_VERIF
+    if (psVerifHsSkip(ssl, 254 /* change_cipher_spec */))
+    {
+        return MATRIXSSL_SUCCESS;
+    }
+#endif
     unsigned char *c, *end, *encryptStart;
     uint8_t padLen;
     psSize_t messageSize;
@@ -5985,6 +6010,12 @@ int32_t matrixSslEncodeClientHello(ssl_t *ssl, sslBuf_t *out,
  */
 static int32 writeClientKeyExchange(ssl_t *ssl, sslBuf_t *out)
 {
+#ifdef MATRIXSSL_VERIF
+    if (psVerifHsSkip(ssl, SSL_HS_CLIENT_KEY_EXCHANGE))
+    {
+        return MATRIXSSL_SUCCESS;
+    }
+#endif
     unsigned char *c, *end, *encryptStart;
     uint8_t padLen;
     psSize_t keyLen, messageSize, explicitLen;
@@ -7073,6 +7104,12 @@ static int32 nowDoCvPka(ssl_t *ssl, psBuf_t *out)
  */
 static int32 writeCertificateVerify(ssl_t *ssl, sslBuf_t *out)
 {
+#ifdef MATRIXSSL_VERIF
+    if (psVerifHsSkip(ssl, SSL_HS_CERTIFICATE_VERIFY))
+    {
+        return MATRIXSSL_SUCCESS;
+    }
+#endif
     unsigned char *c, *end, *encryptStart;
     uint8_t padLen;
     psSize_t messageSize, hashSize;
@@ -7390,6 +7427,12 @@ int32_t matrixSslEncodeClientHello(ssl_t *ssl, sslBuf_t *out,
 static int32 writeCertificateRequest(ssl_t *ssl, sslBuf_t *out, int32 certLen,
     int32 certCount)
 {
+#ifdef MATRIXSSL_VERIF
+    if (psVerifHsSkip(ssl, SSL_HS_CERTIFICATE_REQUEST))
+    {
+        return MATRIXSSL_SUCCESS;
+    }
+#endif
     unsigned char *c, *end, *encryptStart;
     psX509Cert_t *cert;
     uint8_t padLen;
